@@ -64,9 +64,24 @@ class Exec:
         bvh, tm = e["bvh"], e["tm"]
         out = {}
         for frame, c in bvh.colliders_.items():
-            out[str(frame)] = {"c2o": np.asarray(c.collider2origin(), dtype=float).tolist(),
-                               "tm": np.asarray(tm.get_transform(frame, "origin"), dtype=float).tolist(),
-                               "aabb": np.asarray(c.aabb(), dtype=float).tolist()}
+            T = np.asarray(tm.get_transform(frame, "origin"), dtype=float)
+            rec = {"c2o": np.asarray(c.collider2origin(), dtype=float).tolist(), "tm": T.tolist(),
+                   "aabb": np.asarray(c.aabb(), dtype=float).tolist()}
+            # where the collider's geometry actually is: support values along the six axis directions, next to those of
+            # a fresh collider built at the manager's transform (a collider whose pose field is right but whose cached
+            # vertices are stale is not at that pose)
+            spec = e["specs"].get(frame)
+            if spec is not None:
+                tw = build(spec, T.copy())
+                live, fresh = [], []
+                for i in range(3):
+                    for sgn in (1.0, -1.0):
+                        d = np.zeros(3)
+                        d[i] = sgn
+                        live.append(float(np.dot(c.support_function(d.copy()), d)))
+                        fresh.append(float(np.dot(tw.support_function(d.copy()), d)))
+                rec["sup"], rec["sup_tw"] = live, fresh
+            out[str(frame)] = rec
         return out
 
     def _twins(self, e):
